@@ -831,7 +831,8 @@ func (g *genState) drain(bi int) {
 func (g *genState) ghost(bi int) {
 	r := g.rng
 	var v int
-	if g.extra < MaxExtraValidators && (r.Chance(0.7) || g.p.PSlash == 0) {
+	fresh := g.extra < MaxExtraValidators && (r.Chance(0.7) || g.p.PSlash == 0)
+	if fresh {
 		v = len(g.cfg.Validators) + g.extra
 		g.extra++
 		g.nvals = len(g.cfg.Validators) + g.extra
@@ -846,12 +847,30 @@ func (g *genState) ghost(bi int) {
 	at := bi + r.Intn(2)
 	g.futureOps[at] = append(g.futureOps[at], Op{K: "delegate", Who: who, Val: v, Denom: d, Amt: g.amtDelegate(d)})
 	g.addPos(who, v, d)
+	// pending entries that name the validator when it disappears: part of the position starts unbonding, part moves on
+	if r.Chance(0.5) {
+		g.futureOps[bi+1] = append(g.futureOps[bi+1], Op{K: "undelegate", Who: who, Val: v, Denom: d, Amt: &Amt{Pct: r.Range(10, 60)}})
+	}
+	if r.Chance(0.3) {
+		dst := (v + 1 + r.Intn(max(1, g.nvals-1))) % g.nvals
+		g.futureOps[bi+1] = append(g.futureOps[bi+1], Op{K: "redelegate", Who: who, Val: v, Dst: dst, Denom: d, Amt: &Amt{Pct: r.Range(10, 40)}})
+		g.addPos(who, dst, d)
+	}
 	for n := 0; n < g.cfg.Natives; n++ {
 		g.futureOps[bi+1] = append(g.futureOps[bi+1], Op{K: "n_undelegate", Who: n, Val: v, Amt: &Amt{All: true}})
 	}
 	g.futureOps[bi+1] = append(g.futureOps[bi+1], Op{K: "n_undelegate", Self: true, Val: v, Amt: &Amt{All: true}})
-	// past the validator's own unbonding period (a validator that was bonded is removed when it matures)
-	g.forceDt[bi+2] = DtSpec{Ns: g.unbondNs + int64(r.Range(0, 3))*int64(time.Second)}
+	if fresh && r.Chance(0.5) {
+		// a validator that was never bonded is removed at once: the same operator creates it again with enough
+		// stake to enter the bonded set, and it is slashed while the entries from before are still pending
+		g.futureOps[bi+2] = append(g.futureOps[bi+2], Op{K: "create_validator", Val: v, Amt: &Amt{Abs: []string{"5000000", "100000000"}[r.Intn(2)]}})
+		if g.p.PSlash > 0 {
+			g.futureSlash[bi+3] = append(g.futureSlash[bi+3], Op{K: "slash_direct", Val: v, Fraction: slashFractions[r.Intn(len(slashFractions))]})
+		}
+	} else {
+		// past the validator's own unbonding period (a validator that was bonded is removed when it matures)
+		g.forceDt[bi+2] = DtSpec{Ns: g.unbondNs + int64(r.Range(0, 3))*int64(time.Second)}
+	}
 	g.futureOps[bi+3] = append(g.futureOps[bi+3], Op{K: "claim", Who: who, Val: v, Denom: d}, Op{K: "undelegate", Who: who, Val: v, Denom: d, Amt: &Amt{All: true}})
 }
 
